@@ -13,7 +13,8 @@ RULE = ('cases = packages of 1-5 resources with differing schemas and sizes (0, 
         'load tuple, load datapackage, sources); non-trivial = the package changes; distinct = distinct case digest'
         '; round 4: delete_resource by position from either end'
         '; round 7: automatic names of bare iterables after deletions and concatenations of automatically named resources (unique names, resource count, appended rows intact)'
-        '; round 8: load((descriptor, resources)) appending the live stream of a flow that concatenates, duplicates or deletes resources')
+        '; round 8: load((descriptor, resources)) appending the live stream of a flow that concatenates, duplicates or deletes resources'
+        '; round 9: source field lists of concatenate as one-shot iterables; load of a relative path with the working directory changed between building and running the Flow')
 TRUSTED = ['Coq 8.16.1 kernel + vm_compute', 'harness/p16.py printers and oracle',
            'KVFile as an ordered map (duplicate\'s store), exercised at several batch sizes',
            'resource selection itself is C10\'s subject; here selections are given as explicit name lists']
